@@ -645,7 +645,11 @@ def nt_polygon(labels):
 def formula_case(draw):
     n = draw(st.integers(3, 60))
     amax = (n - 2) * math.pi / n
-    return dict(n=n, angle=draw(fl(0.02 * amax, 0.98 * amax)), radius=draw(fl(0.05, 6.0)),
+    return dict(n=n, angle=draw(fl(0.02 * amax, 0.98 * amax)),
+                # (a circumradius of 15 .. 19 is an interior angle of 1e-6 .. 1e-8: small, and
+                # as well determined as any other)
+                radius=draw(st.one_of(fl(0.05, 6.0), fl(0.05, 6.0), fl(0.05, 6.0),
+                                      st.sampled_from([12.0, 15.0, 17.0, 19.0]))),
                 g=draw(st.integers(2, 30)),
                 t=draw(st.one_of(fl(-6.0, 6.0), st.sampled_from(T_SPECIAL))))
 
@@ -663,6 +667,8 @@ def body_formula(case, ctx):
     a_true = I.ngon_angle_from_radius(n, r)
     ctx.small("polygon_interior_angle vs closed form", (a_lib - a_true) / 1e-9, 1.0,
               a_lib=a_lib, a_true=a_true)
+    ctx.small("polygon_interior_angle vs closed form, relative to the angle",
+              (a_lib - a_true) / (1e-9 * a_true), 1.0, a_lib=a_lib, a_true=a_true, r=r)
     back_a = float(hyperbolic.polygon_interior_angle(n, hyperbolic.regular_polygon_radius(n, a)))
     ctx.small("interior_angle(radius(a)) = a", (back_a - a) / (1e-9 * C), 1.0, back=back_a, angle=a)
     back_r = float(hyperbolic.regular_polygon_radius(n, hyperbolic.polygon_interior_angle(n, r)))
